@@ -1,6 +1,6 @@
 """C01 — Time limit bounds every evaluation."""
 
-from ..rules import limits
+from ..rules import limits, termination
 
 
 def run(ctx, rep):
@@ -11,6 +11,8 @@ def run(ctx, rep):
     limits.rule_regex_timeout_translated(ctx, rep, "C01-R5")
     limits.rule_limit_errors_not_swallowed(ctx, rep, "C01-R6")
     limits.rule_one_deadline(ctx, rep, "C01-R7")
+    termination.rule_native_loops_terminate(ctx, rep, "C01-R8")
+    termination.rule_prototype_chains_acyclic(ctx, rep, "C01-R8b")
     rep.undecided += [
         "size of the overrun in seconds (runtime quantity)",
         "cost of a single native call on bounded operands (excluded by the property's scope)",
